@@ -39,6 +39,7 @@ def run(tier):
     big = sorted(progs_, key=lambda p: -len(p["src"]))[:40]
     table, behs = syntax.generate(check, "7", num=300, seed=core.seed() + 11, depth=3)
     ex = progs.expand_all(table, behs, core.seed(), ["random"])
+    behs, ex = progs.drop_skipped(behs, ex)
     gen = [{"src": e["variants"][0]["src"], "ver": "7.4"} for e in ex]
     pool_in = big + gen[:60]
     # (1) gated interleavings
